@@ -446,6 +446,20 @@ Proof.
   - right. apply frame_starts.
 Qed.
 
+(** A request that is not UTF-8 or names no plugin gets the same [error] reply in every state and
+    changes nothing: whenever its handler is scheduled among the other connections' events, the
+    client sees the same bytes. *)
+Lemma rejected_reply_constant S (ps : plugins_chk S) req :
+  (utf8_decode req = None \/
+   exists line, utf8_decode req = Some line /\ lookup_chk (request_name (quoted_str_split line)) ps = None) ->
+  exists d, starts_with (B "error") d = true /\
+            forall s, handle_chk ps req s = Ok ({| hr_data := d; hr_close := false |}, s).
+Proof.
+  intros [H|(line & H & L)].
+  - exists msg_binary. split; [reflexivity|]. intros s. unfold handle_chk. rewrite H. reflexivity.
+  - exists msg_not_found. split; [reflexivity|]. intros s. unfold handle_chk. rewrite H. cbv zeta. rewrite L. reflexivity.
+Qed.
+
 (** ---- [String::remove(0)] in [with_ping] ------------------------------------------------------------- *)
 
 Lemma str_remove_first_ascii b t : b < 128 -> str_remove_chk 0 (b :: t) = Ok t.
